@@ -34,13 +34,23 @@ Semantics of the subset (the translator's conventions; printed in the generated 
     returns, `zero : β` the `0.0` of `np.zeros`), and `gromov_hausdorff` returns the final state with its result;
   * library calls are TABLE ENTRIES (pattern -> definition of `Lemmas/SrcLibGH.lean` or helper of `Model/Graph.lean`); an
     expression that matches no entry is outside the subset.
+What the obligations cannot see and the translator therefore REFUSES (`src_…_eq_ref` holds up to definitional unfolding, which
+absorbs a `let` that nothing reads and cannot tell two names for one array from two arrays with equal entries):
+  * ALIASING: a float array (`FM`, the one kind of value updated in place) is OWNED by the name `np.zeros` bound it to; `y = x` for
+    such an `x` is refused, `M[…] = …` is accepted only for an owned `M` (ownership is followed through `if` arms and loops);
+  * DEAD STORES: every generated `let` / bound result must be read by what follows it; a loop-carried name must be read by the
+    loop itself or after it (`check_live`);
+  * NAME CAPTURE: a Lean name is handed out once per definition, and an SSA version `x_k` or temporary `t`, `r`, `j`, `s`, `warned`
+    is never an identifier that occurs in the Python function;
+  * names resolved BY SPELLING (`SPELLED`, the four functions), the opaque parameter and the constants of the call form must not be
+    bound anywhere in the function (any binding form: assignment, loop / comprehension target, `except … as`, …).
 A source outside the subset gives `def srcShape_<f> : Bool := false` and the broken obligation `srcShape_<f>_recognised`.
 """
 import ast, os, re
 
 from .py2lean import (Shape, lean_str, strip_doc, GEN, bindings_section, render_signature, signature_text, sanitize,
                       not_translated, not_translated_comment)
-from .py2lean_mgh import tmatch, template, dotted
+from .py2lean_mgh import tmatch, template, dotted, tokens, bound_names, identifiers
 
 
 # ----------------------------------------------------------------------------- types
@@ -77,9 +87,10 @@ class Ret:
 
 
 class Raw:
-    """text that already has type `Except GhErr τ` (a recursive call, a raising table entry in tail position)"""
-    def __init__(self, text):
-        self.text = text
+    """text that already has type `Except GhErr τ` (a recursive call, a raising table entry in tail position); `passthrough`:
+    the recursive call of a loop definition (hands the carried values on: not a READ of them for the dead-store check)"""
+    def __init__(self, text, passthrough=False):
+        self.text, self.passthrough = text, passthrough
 
 
 class Fail:
@@ -88,8 +99,10 @@ class Fail:
 
 
 class Let:
-    def __init__(self, name, ty, text, body):
-        self.name, self.ty, self.text, self.body = name, ty, text, body
+    """`structural`: the value of a loop-carried name after the loop, for a name that the loop itself reads (no store of the
+    source stands behind it: exempt from the dead-store check)"""
+    def __init__(self, name, ty, text, body, structural=False):
+        self.name, self.ty, self.text, self.body, self.structural = name, ty, text, body, structural
 
 
 class Bind:
@@ -176,6 +189,58 @@ def render(n, ind):
     raise Shape("internal: node")
 
 
+# ----------------------------------------------------------------------------- dead-store check on the GENERATED bindings
+# `src_…_eq_ref` holds up to definitional unfolding, which absorbs a `let` that nothing reads: a store of the source that becomes
+# such a `let` is refused (same check as py2lean_mgh.check_live, on this engine's nodes).
+
+def node_reads(n, passthrough=True):
+    if isinstance(n, Ret):
+        return tokens(n.text)
+    if isinstance(n, Raw):
+        return set() if (n.passthrough and not passthrough) else tokens(n.text)
+    if isinstance(n, Fail):
+        return set()
+    if isinstance(n, Let):
+        return tokens(n.text) | node_reads(n.body, passthrough)
+    if isinstance(n, Bind):
+        head = tokens(n.scrut) if isinstance(n.scrut, str) else node_reads(n.scrut[0], passthrough)
+        return head | node_reads(n.body, passthrough)
+    if isinstance(n, Ite):
+        return tokens(n.cond) | node_reads(n.a, passthrough) | node_reads(n.b, passthrough)
+    if isinstance(n, Arms):
+        out = tokens(n.scrut)
+        for _, body in n.arms:
+            out |= node_reads(body, passthrough)
+        return out
+    raise Shape("internal: node")
+
+
+def check_live(n, where):
+    """every `let` / bound result is read by what follows it (a Lean name is handed out once per definition: `Fn.fresh`)"""
+    if isinstance(n, Let):
+        if not n.structural and n.name not in node_reads(n.body):
+            raise Shape("dead store: the value bound to `%s` in %s is never read by the translated code (a store that only "
+                        "untranslated code could observe is outside the subset)" % (n.name, where))
+        check_live(n.body, where)
+    elif isinstance(n, Bind):
+        if not isinstance(n.scrut, str):
+            check_live(n.scrut[0], where)
+        if n.var not in node_reads(n.body):
+            raise Shape("dead store: the result bound to `%s` in %s is never read by the translated code" % (n.var, where))
+        check_live(n.body, where)
+    elif isinstance(n, Ite):
+        check_live(n.a, where)
+        check_live(n.b, where)
+    elif isinstance(n, Arms):
+        for _, body in n.arms:
+            check_live(body, where)
+
+
+# names the translation resolves BY SPELLING: binding one of them inside a translated function is outside the subset
+SPELLED = {"len", "range", "next", "isinstance", "np", "sps", "warnings", "shortest_path", "connected_components", "estimate",
+           "ValueError", "StopIteration"}
+
+
 # ----------------------------------------------------------------------------- the table of library calls
 # (template, handler(tr, bindings) -> ("pure", V) | ("raise", Lean text of type Except GhErr τ, type tag));  `_X` are holes
 
@@ -197,6 +262,9 @@ def _len(tr, b):
     if a.ty not in ("LC", "LN", "FM"):
         raise Shape("len of something that is not a sequence: %s" % ast.unparse(b["_A"]))
     return "pure", V("%s.length" % a.a(), "N", atom=False)
+
+
+ZEROS = template("np.zeros((_A, _B))")         # the one expression that CREATES a float array (its target owns it)
 
 
 @idiom("np.zeros((_A, _B))", "zeros2 A B zero", "a float array; `zero` is its `0.0`")
@@ -361,15 +429,37 @@ class Fn:
         self.nloops = 0
         self.warnings = []            # `warnings.warn(...)` calls and `raise` statements, as written
         self.consts = dict((form or {}).get("consts", {}))
+        self.taken = set()            # the Lean names of this definition (handed out once)
+        self.owned = set()            # python names bound to a float array that this function created and no other name refers to
 
     # --- names
-    def fresh(self, base):
-        k = self.count.get(base, 0)
-        self.count[base] = k + 1
-        return base if k == 0 else "%s_%d" % (base, k)
+    def reserve(self, lean):
+        if lean in self.taken:
+            raise Shape("the name `%s` would be bound twice in one generated definition" % lean)
+        self.taken.add(lean)
+        self.count[lean] = max(self.count.get(lean, 0), 1)
+
+    def fresh(self, base, py=False):
+        """`base`, `base_1`, …: never a name this definition already has, never (for a temporary or an SSA version `x_k`) a
+        name that occurs as an identifier anywhere in the Python function (no capture of a local literally called `lbs_1`, `t_1`);
+        `py`: `base` is itself the Python name being bound"""
+        while True:
+            k = self.count.get(base, 0)
+            self.count[base] = k + 1
+            name = base if k == 0 else "%s_%d" % (base, k)
+            if name in self.taken or (name in self.unit.pyidents and not (py and k == 0)):
+                continue
+            self.taken.add(name)
+            return name
 
     def define(self, py, ty, base=None):
-        lean = self.fresh(base or {"__rng": "s", "__warned": "warned"}.get(py, py))
+        hidden = {"__rng": "s", "__warned": "warned"}
+        if not py.startswith("__"):
+            if py in self.unit.spelled:
+                raise Shape("`%s` is bound inside the function, but the translation resolves that name by spelling" % py)
+            if py in self.cfg.get("opaque_params", []):
+                raise Shape("`%s` is a parameter that is not modelled (it must reach `estimate` unchanged): it is re-bound" % py)
+        lean = self.fresh(base or hidden.get(py, py), py=base is None and py not in hidden)
         self.env[py] = (lean, ty)
         return lean
 
@@ -583,9 +673,12 @@ class Fn:
                 m = re.match(r"^t(?:_(\d+))?$", v.t)
                 if m and self.count.get("t", 0) == int(m.group(1) or 0) + 1:
                     self.count["t"] -= 1
+                    self.taken.discard(v.t)
+                self.note_binding(tgt.id, val, v)
                 name = self.define(tgt.id, v.ty)
                 pre[-1] = ("bind", pre[-1][1], name)
                 return self.wrap(pre, go())
+            self.note_binding(tgt.id, val, v)
             name = self.define(tgt.id, v.ty)
             return self.wrap(pre, simplify(Let(name, lty(v.ty), v.t, go())))
         if isinstance(tgt, ast.Tuple) and all(isinstance(e, ast.Name) for e in tgt.elts):
@@ -601,12 +694,27 @@ class Fn:
             for k, e in enumerate(tgt.elts):
                 if e.id == "_":
                     continue
+                if v.ty[k] == "FM":
+                    raise Shape("a float array bound through a tuple: %s" % ast.unparse(s))
+                self.owned.discard(e.id)
                 lets.append((self.define(e.id, v.ty[k]), v.ty[k], "%s.%d" % (v.t, k + 1)))
             node = go()
             for n, ty, tx in reversed(lets):
                 node = Let(n, lty(ty), tx, node)
             return self.wrap(pre, node)
         raise Shape("assignment: %s" % ast.unparse(s))
+
+    def note_binding(self, py, value_node, v):
+        """ownership of float arrays (the values this engine updates in place): `y = np.zeros(…)` makes `y` the only name of a new
+        array; `y = x` for an array `x` would make two names for ONE object, which the translation of `M[…] = …` as a new value
+        of the one name `M` cannot express"""
+        if v.ty == "FM":
+            if tmatch(ZEROS, value_node, {}):
+                self.owned.add(py)
+                return
+            raise Shape("`%s = %s`: a second name for a float array (aliasing is not modelled; `M[…] = …` is translated as a new "
+                        "value of the ONE name `M`)" % (py, ast.unparse(value_node)))
+        self.owned.discard(py)
 
     def store(self, tgt, v):
         """`M[i, j] = v` / `M[idx] = vals`: the ONE name `M` gets a new value (an array created in this function by `np.zeros`)"""
@@ -615,6 +723,9 @@ class Fn:
         m = self.cur(tgt.value.id)
         if m.ty != "FM":
             raise Shape("index assignment into %s" % lty(m.ty))
+        if tgt.value.id not in self.owned:
+            raise Shape("index assignment into `%s`, which is not an array created in this function by np.zeros that no other name "
+                        "refers to" % tgt.value.id)
         sl = tgt.slice
         if isinstance(sl, ast.Tuple) and len(sl.elts) == 2:
             i, j = self.expr(sl.elts[0], "N"), self.expr(sl.elts[1], "N")
@@ -639,6 +750,8 @@ class Fn:
             raise Shape("generator expression: %s" % ast.unparse(g))
         items = [self.expr(e, "IT").t for e in c.iter.elts]
         var = c.target.id
+        if var in self.taken or var in self.unit.spelled or var in self.env:
+            raise Shape("the variable of the generator expression re-uses a name: %s" % var)
         saved = dict(self.env)
         self.env[var] = (var, "IT")
         cond = c.ifs[0]
@@ -690,26 +803,31 @@ class Fn:
             return self.block((s.body if c else s.orelse) + rest, cont)
         ta, tb = terminates(s.body), terminates(s.orelse)
         if ta or tb:                                      # an arm that ends the definition: the other one continues
-            env0 = dict(self.env)
+            env0, owned0 = dict(self.env), set(self.owned)
             a = self.block(s.body + ([] if ta else rest), cont)
-            env_a = self.env
-            self.env = dict(env0)
+            env_a, owned_a = self.env, self.owned
+            self.env, self.owned = dict(env0), set(owned0)
             b = self.block(s.orelse + ([] if tb else rest), cont)
             if not ta:
-                self.env = env_a
+                self.env, self.owned = env_a, owned_a
             return Ite(c, a, b)
         # the names an arm assigns that exist before the `if` (the others are local to the arm: a later read of them is an error)
         names = [n for n in assigned_names(s.body + s.orelse, self.unit.rng_calls) if n in self.env]
         names = [n for n in names if not n.startswith("__")] + [n for n in names if n.startswith("__")]
         env0 = dict(self.env)
 
+        owned0, owned_after = set(self.owned), []
+
         def arm(stmts):
             self.env = dict(env0)
+            self.owned = set(owned0)
             node = self.block(stmts, lambda: Ret(self.tuple_text([self.cur(n) for n in names])))
             tys = [self.env[n][1] for n in names]
+            owned_after.append(set(self.owned))
             return node, tys
         a, tya = arm(s.body)
         b, tyb = arm(s.orelse)
+        self.owned = owned_after[0] & owned_after[1]
         if [lty(t) for t in tya] != [lty(t) for t in tyb]:
             raise Shape("the arms of an `if` give different types to %s" % names)
         self.env = dict(env0)
@@ -753,24 +871,35 @@ class Fn:
         closure = [n for n in self.env if n not in carried and n != var and n in used and not n.startswith("__")]
         lead = self.lead_params()
         # --- the loop definition: translated in a copy of this translator's state
+        if var in self.unit.spelled or var in self.cfg.get("opaque_params", []) or var in self.consts:
+            raise Shape("the loop variable re-uses the name `%s`" % var)
         sub = Fn(self.unit, self.cfg, self.form)
         sub.consts, sub.nloops, sub.loops, sub.warnings = self.consts, self.nloops, self.loops, self.warnings
+        for n, _ in self.cfg.get("lead", []):
+            sub.reserve(n)
+        sub.reserve("rest")
         for n in closure:
             sub.env[n] = (self.env[n][0], self.env[n][1])
-            sub.count[self.env[n][0]] = 1
+            sub.reserve(self.env[n][0])
         for n in carried:
             sub.define(n, self.env[n][1])
         sub.env[var] = (var, "N")
-        sub.count[var] = 1
+        sub.reserve(var)
+        sub.owned = {n for n in carried if n in self.owned}       # an array the body updates stays the one name's own
         heads = [sub.env[n][0] for n in carried]
         closure_args = " ".join(self.env[n][0] for n in closure)
         closure_params = " ".join("(%s : %s)" % (self.env[n][0], lty(self.env[n][1])) for n in closure)
 
         def again():
-            return Raw(" ".join(x for x in [lname, lead[1], " ".join(sub_closure), "rest"] + [sub.env[n][0] for n in carried] if x))
+            return Raw(" ".join(x for x in [lname, lead[1], " ".join(sub_closure), "rest"] + [sub.env[n][0] for n in carried] if x),
+                       passthrough=True)
         sub_closure = [sub.env[n][0] for n in closure]
         body = sub.block(list(s.body), again)
         self.nloops = sub.nloops
+        check_live(body, "the loop `%s`" % lname)
+        live = node_reads(body, passthrough=False)
+        in_loop = {n: h in live for n, h in zip(carried, heads)}      # read by the loop itself, not just handed on
+        self.owned -= {n for n in carried if n not in sub.owned}
         cty = " × ".join(lty(self.env[n][1], True) for n in carried)
         text = ["def %s %s : List Nat → %s → Except GhErr (%s)" % (
             lname, " ".join(x for x in [lead[0], closure_params] if x), " → ".join(lty(self.env[n][1], True) for n in carried), cty)]
@@ -786,10 +915,10 @@ class Fn:
             proj = r + ".2" * k + (".1" if k < len(carried) - 1 else "")
             if len(carried) == 1:
                 proj = r
-            lets.append((self.define(n, self.env[n][1]), self.env[n][1], proj))
+            lets.append((self.define(n, self.env[n][1]), self.env[n][1], proj, in_loop[n]))
         node = go()
-        for n, ty, tx in reversed(lets):
-            node = Let(n, lty(ty), tx, node)
+        for n, ty, tx, st in reversed(lets):
+            node = Let(n, lty(ty), tx, node, structural=st)
         return Bind(call, r, node)
 
     def lead_params(self):
@@ -892,6 +1021,7 @@ class Unit:
         self.fns = {n.name: n for n in tree.body if isinstance(n, ast.FunctionDef)}
         self.cfgs = {c["func"]: c for c in TARGETS}
         self.rng_calls = {"estimate"}
+        self.pyidents, self.spelled = set(), set()
         # per function: the names it (re)assigns anywhere (a parameter among them is not a constant of a call form)
         self.assigned_in = {}
         for name, fn in self.fns.items():
@@ -913,8 +1043,16 @@ class Unit:
         names = self.check_params(cfg, fn)
         body = strip_doc(fn.body)
         for n in ast.walk(fn):
-            if isinstance(n, (ast.Global, ast.Nonlocal, ast.Lambda, ast.FunctionDef, ast.While, ast.With, ast.Delete)) and n is not fn:
+            if isinstance(n, (ast.Global, ast.Nonlocal, ast.Lambda, ast.FunctionDef, ast.While, ast.With, ast.Delete, ast.ClassDef,
+                              ast.AsyncFunctionDef, ast.NamedExpr, ast.Import, ast.ImportFrom)) and n is not fn:
                 raise Shape("%s in %s" % (type(n).__name__, fn.name))
+        self.pyidents = identifiers(fn)
+        self.spelled = SPELLED | set(self.cfgs) | set(INT_TYPES)
+        fixed = set(cfg.get("opaque_params", [])) | {c for f in cfg.get("forms", []) for c in f.get("consts", {})}
+        clash = sorted(bound_names(fn) & (self.spelled | fixed))
+        if clash:
+            raise Shape("%s binds %s, which the translation resolves by spelling, passes on unmodelled or reads as a constant of "
+                        "the call form" % (fn.name, ", ".join(clash)))
         defs, warns, csg = [], [], False
         forms = cfg.get("forms")
         lead = " ".join("(%s : %s)" % (n, t) for n, t in cfg.get("lead", []))
@@ -922,15 +1060,18 @@ class Unit:
             if names != [p for p, _ in cfg["params"]]:
                 raise Shape("parameters of %s: %s" % (fn.name, names))
             tr = Fn(self, cfg)
+            for n, _ in cfg.get("lead", []):
+                tr.reserve(n)
             for p, ty in cfg["params"]:
                 tr.env[p] = (p, ty)
-                tr.count[p] = 1
+                tr.reserve(p)
             lets = []
             for py, ty, init in cfg.get("hidden", []):
                 lets.append((tr.define(py, ty), ty, init))
             node = tr.block(body, lambda: (_ for _ in ()).throw(Shape("%s can end without a return" % fn.name)))
             for n, ty, tx in reversed(lets):
                 node = Let(n, lty(ty), tx, node)
+            check_live(node, "`%s`" % fn.name)
             params = " ".join("(%s : %s)" % (p, lty(ty)) for p, ty in cfg["params"])
             text = "def %s %s : Except GhErr %s :=\n%s" % (
                 cfg["lean"], " ".join(x for x in [lead, params] if x), lty(cfg["ret"], True), "\n".join(render(node, "  ")))
@@ -942,12 +1083,16 @@ class Unit:
             arms, loops = [], None
             for form in forms:
                 tr = Fn(self, cfg, form)
+                for n, _ in cfg.get("lead", []):
+                    tr.reserve(n)
+                for n in re.findall(r"\((\w+) :", cfg["tail_params"]):
+                    tr.reserve(n)
                 for p, ty in form["params"]:
                     tr.env[p] = (p, ty)
-                    tr.count[p] = 1
+                    tr.reserve(p)
                 tr.env["__rng"] = ("s", "ST")
-                tr.count["s"] = 1
                 node = tr.block(body, lambda: (_ for _ in ()).throw(Shape("%s can end without a return" % fn.name)))
+                check_live(node, "`%s` (call form %s)" % (fn.name, form["name"]))
                 if loops is None:
                     loops = tr.loops
                 elif loops != tr.loops:
@@ -993,7 +1138,8 @@ HEADER = (
     "    the body re-assigns; the other names it reads are leading parameters; `range(a, b)` is `pyRange a b`;\n"
     "  * an `if` whose arms fall through yields the names its arms assign (an `Except` if an arm can raise); an arm that raises or\n"
     "    returns ends the definition there and the other arm continues;\n"
-    "  * `M[i, j] = v`, `M[idx] = vals` give the ONE name `M` a new value; accepted only for an array the function created;\n"
+    "  * `M[i, j] = v`, `M[idx] = vals` give the ONE name `M` a new value; accepted only for an array that the function created with\n"
+    "    `np.zeros` and that no other name refers to: `y = x` for a float array `x` (a second name for ONE object) is outside the subset;\n"
     "  * `warnings.warn(…)` sets the flag `warned` (`false` at entry); `return DG` of `make_distance_matrix_from_adjacency_matrix`\n"
     "    is the record `⟨entries, warned, dtype⟩` (`DistResult` of the model); a caller reads `.dist`;\n"
     "  * NumPy's global generator is the explicit state `s : σ`: `estimate(DX, DY, mapping_sample_size_order=mapping_sample_size_order)`\n"
@@ -1007,6 +1153,11 @@ HEADER = (
     "    PARAMETERS with a contract: `shortest_path(·, directed=False, unweighted=True)` and `connected_components(·, directed=False)`\n"
     "    (`SrcGH.CsgraphContract`: on a dense array or a CSR matrix, the model's BFS distances / component labels; anything else,\n"
     "    any other keyword, is outside the subset), and `estimate`.\n"
+    "REFUSED (`src_…_eq_ref` holds up to definitional unfolding, which would absorb them): a DEAD STORE -- a generated `let` / bound\n"
+    "result / loop-carried value that nothing of the generated code reads (no exceptions in these four functions); binding a name the\n"
+    "translation resolves by spelling (`len`, `range`, `np`, `sps`, `warnings`, `estimate`, the csgraph routines, the four functions), the\n"
+    "parameter `mapping_sample_size_order` or `AH` (a constant of the call form); SSA versions `x_k` and temporaries avoid every\n"
+    "identifier of the Python function.\n"
     "A source outside the subset gives `def srcShape_<f> : Bool := false`, and `srcShape_<f>_recognised` fails.\n"
     "-/\n"
     "set_option linter.unusedVariables false\n"
